@@ -607,6 +607,27 @@ def case(ctx, i, rng):
         verdict, nontrivial = judge(ctx, rng, "direct", I, args, cplx, c["cell"], c["gdim"], c["itype"], dict(info, api="check_form_arity" if use_form_api else "check_integrand_arity"))
         _after_judgement(ctx, c, "direct", verdict, nontrivial, I, hostile)
 
+    # ---------------- event 1b: the same integrand object checked again in the OTHER mode (the verdict of one mode
+    # must not leak into the other: a history of calls, not a single call)
+    if rng.random() < 0.35:
+        ctx.count("events")
+        ctx.count("other_mode_events")
+        accepted2 = False
+        try:
+            check_integrand_arity(I, args, not cplx)
+            accepted2 = True
+        except ArityMismatch:
+            ctx.count("rejected")
+            ctx.count("other_mode_rejected")
+        except Exception as ex:
+            ctx.covered("direct_raised_other", type(ex).__name__)
+        if accepted2:
+            ctx.count("other_mode_accepted")
+            verdict, nontrivial = judge(ctx, rng, "direct-other-mode", I, args, not cplx, c["cell"], c["gdim"], c["itype"],
+                                        dict(info, api="check_integrand_arity after a call in the other mode"))
+            if verdict == "held":
+                ctx.count("other_mode_accepted_held")
+
     # ---------------- event 2: the calls made while compute_form_data runs
     if rng.random() < 0.2:
         return
